@@ -2,7 +2,12 @@
 
 from typing import Any, Callable, Mapping, Optional, Sequence, Type, Union, cast
 
-from .exc import ExecutionError, GraphQLSyntaxError, VariablesCoercionError
+from .exc import (
+    CoercionError,
+    ExecutionError,
+    GraphQLSyntaxError,
+    VariablesCoercionError,
+)
 from .execution import (
     BlockingExecutor,
     Executor,
@@ -145,6 +150,9 @@ def process_graphql_query(
         )
     except VariablesCoercionError as err:
         return _abort(data=None, errors=err.errors)
+    except CoercionError as err:
+        # Invalid `@skip` / `@include` arguments on the root selection set.
+        return _abort(data=None, errors=[err])
     except ExecutionError as err:
         return _abort(data=None, errors=[err])
 
